@@ -59,7 +59,11 @@ func strChar(L *LState) int {
 	top := L.GetTop()
 	bytes := make([]byte, L.GetTop())
 	for i := 1; i <= top; i++ {
-		bytes[i-1] = uint8(L.CheckInt(i))
+		c := L.CheckInt(i)
+		if c < 0 || c > 255 {
+			L.ArgError(i, "invalid value")
+		}
+		bytes[i-1] = uint8(c)
 	}
 	L.Push(LString(string(bytes)))
 	return 1
